@@ -30,6 +30,12 @@ func genC08(r *prng) *plan {
 	p.Cfg["jitter_ms"] = int64(r.intn(120))
 	p.Cfg["fill"] = int64([]int{0, 3, 20, 60}[r.intn(4)])
 	p.Cfg["maxenr"] = int64(r.intn(2))
+	if r.chance(35) {
+		// the responder's content path under the statement-level yield scheduler, with stalled goroutines:
+		// the transfer goroutine may register its accept after the asker's SYN has arrived
+		p.Cfg["ysched"] = int64(1 + r.intn(1<<30))
+		p.Cfg["stall"] = int64(r.intn(2))
+	}
 	sizes := []int64{0, 1, 2, 1173, 1174, 1175, 1176, 1177, 1178, 2047, 2048, 2049, 4000, 9000, 20000, 60000, 100000}
 	nkeys := 3 + r.intn(5)
 	p.Cfg["nkeys"] = int64(nkeys)
@@ -77,14 +83,32 @@ func runC08(seed uint64) {
 	w := newWorld(seed, "C08", "c08")
 	faults := p.cfg("faults") == 1
 	w.res.Class = map[bool]string{true: "faults", false: "fault-free"}[faults]
+	if p.cfg("ysched") != 0 && p.cfg("stall") == 1 {
+		// stalled goroutines are a fault: a transfer goroutine descheduled for some milliseconds between
+		// accepting the stream and writing to it makes the dependency's write hang until its timeout
+		// (observed on the unchanged tree), so completeness is not demanded; wrong bytes still are
+		faults = true
+		w.res.Class = "stalled-goroutines"
+	}
 	rv, av, pv := versionSets[p.cfg("rv")%3], versionSets[p.cfg("av")%3], versionSets[p.cfg("pv")%3]
 
 	rdeco := &decoStore{}
 	R := w.newBase(nodeCfg{name: "R", port: 9001, key: detKey(seed, 1), versions: rv, maxUtp: 50, capacityMB: 100,
 		wrapStore: func(s storage.ContentStorage) storage.ContentStorage { rdeco.inner = s; return rdeco }})
 	rp := R.newPlainProto(portalwire.History)
+
 	A := w.newBase(nodeCfg{name: "A", port: 9002, key: detKey(seed, 2), versions: av, maxUtp: 50, capacityMB: 100})
 	ap := A.newPlainProto(portalwire.History)
+	if ys := p.cfg("ysched"); ys != 0 {
+		w.ys, w.ysRng = newYsched(append(mutexesOf(rp.p), mutexesOf(ap.p)...)), newPrng(uint64(ys))
+		if p.cfg("stall") == 1 {
+			w.ys.stallPct, w.ys.stallMaxMs = 3, 30
+		}
+		portalwire.VerifProtoYieldHook = w.ys.yield
+		w.ys.wake = w.net.wake
+		w.ys.on = true
+		w.probe("content_path_yield_scheduled")
+	}
 	P := w.newPuppet(nodeCfg{name: "P", port: 9003, key: detKey(seed, 3), versions: pv, maxUtp: 50})
 	w.net.onSend = func(d *datagram) {
 		if len(d.data) > 1280 && d.from == R.sock.addr {
